@@ -3,7 +3,7 @@
 From Coq Require Import List NArith ZArith Bool Lia.
 From Verif Require Import Common.GoInt Gen.Sequence GenProofs.SequenceProofs.
 From Verif Require Import Chain.Model Chain.Proofs Chain.ProofsWalk Chain.ProofsSys Chain.ProofsPath Chain.Examples
-  LogDB.Model LogDB.Proofs LogDB.ProofsCanon LogDB.ProofsRows LogDB.ProofsSync LogDB.ProofsVerify.
+  LogDB.Model LogDB.Proofs LogDB.ProofsCanon LogDB.ProofsRows LogDB.ProofsGenesis LogDB.ProofsSync LogDB.ProofsVerify.
 Import ListNotations.
 Open Scope N_scope.
 
@@ -106,6 +106,21 @@ Theorem filter_on_canonical_logs g gp tag r db st cs o out : num_of g = 0 -> imp
 Proof.
   intros Hg I P F. destruct (logdb_is_canonical_logs g gp tag r db Hg I st P) as [E _]. rewrite <- E.
   destruct (filter_is_subsequence_events db cs o out F) as [full [H1 [H2 [H3 _]]]]. exists full. auto.
+Qed.
+
+(* 5b. genesis rows.  A running node's log db also holds the events / transfers of the genesis builder, written at every
+       start by cmd/thor/utils.go:initChainRepository as rows of block 0 (the repository stores genesis without
+       receipts, so they are not part of chain_events).  For every import history that starts from ANY tables d0 whose
+       keys lie below block 1, the tables are d0's rows followed by the logs of the canonical chain: Truncate (always at
+       a height >= 1, Exclude never returns genesis), Write and hence writeLogs commute with such a prefix. *)
+Theorem logdb_tracks_canonical_after_genesis_rows g gp tag d0 r db : num_of g = 0 -> below two35 d0 ->
+  imported_from g gp tag d0 r db ->
+  forall st, is_path r (r_best r) st ->
+    db_events db = db_events d0 ++ chain_events r st /\ db_transfers db = db_transfers d0 ++ chain_transfers r st.
+Proof.
+  intros Hg B0 I st P. destruct (imported_from_frame g gp tag d0 r db Hg B0 I) as [db1 [I1 ->]].
+  destruct (logdb_is_canonical_logs g gp tag r db1 Hg I1 st P) as [E1 E2]. unfold frame. cbn [db_events db_transfers].
+  rewrite E1, E2. auto.
 Qed.
 
 (* writing a block above every stored key appends exactly the rows its receipts prescribe *)
@@ -230,6 +245,29 @@ Example ex_c15_verify :
     In (bid 2 2) [bid 2 2; bid 1 1; ex_g] /\ num_of (r_best ex_r5) + log_step <= max_block.
 Proof. eexists. split; [vm_compute; reflexivity|]. vm_compute. repeat split; auto; discriminate. Qed.
 
+(* non-vacuity of 5b: what Write(genesis, one receipt) leaves (rows of block 0) is a valid starting table, and the
+   example history imported on top of it keeps those rows in front; a transfer filter on the result *)
+Definition ex_d0 := match write_block (mkB ex_g ex_gp 0 [] [ex_rc false]) empty_db with Some d => d | None => empty_db end.
+Definition ex_dg1 := match write_logs ex_r0 ex_d0 ex_b1 ex_g with Some d => d | None => empty_db end.
+Definition ex_dg2 := match write_logs ex_r1 ex_dg1 ex_b2 (bid 1 1) with Some d => d | None => empty_db end.
+Definition ex_dg4 := match write_logs ex_r3 ex_dg2 ex_b3' (bid 2 1) with Some d => d | None => empty_db end.
+Example ex_c15_genesis_rows :
+  below two35 ex_d0 /\ length (db_events ex_d0) = 1%nat /\ length (db_transfers ex_d0) = 1%nat /\
+  imported_from ex_g ex_gp ex_tag ex_d0 ex_r4 ex_dg4 /\
+  map (fun x => seq_block (er_seq x)) (db_events ex_dg4) = [0; 2; 2] /\
+  option_map (map (fun x => (seq_block (tr_seq x), tr_tx x)))
+    (filter_transfers ex_dg4 [mkTC None (Some 50) None; mkTC (Some 99) None None] (mkFO (Some (1, 5)) (Some (0, 1)) true)) = Some [(2, 1002)].
+Proof.
+  split; [split; intros x Hx; vm_compute in Hx; destruct Hx as [<-|[]]; vm_compute; reflexivity|].
+  split; [reflexivity|]. split; [reflexivity|]. split.
+  - apply (impf_best _ _ _ _ ex_r3 ex_dg2 ex_b3' 0); [| vm_compute; repeat split | vm_compute; reflexivity | vm_compute; reflexivity].
+    apply (impf_side _ _ _ _ ex_r2 ex_dg2 ex_b2' 1); [| vm_compute; repeat split | vm_compute; reflexivity].
+    apply (impf_best _ _ _ _ ex_r1 ex_dg1 ex_b2 0); [| vm_compute; repeat split | vm_compute; reflexivity | vm_compute; reflexivity].
+    apply (impf_best _ _ _ _ ex_r0 ex_d0 ex_b1 0); [| vm_compute; repeat split | vm_compute; reflexivity | vm_compute; reflexivity].
+    apply impf_init.
+  - vm_compute. repeat split.
+Qed.
+
 Print Assumptions seq_pack_inj_mono.
 Print Assumptions seq_model_is_translated.
 Print Assumptions filter_is_subsequence_events.
@@ -241,6 +279,7 @@ Print Assumptions canonical_path_exists.
 Print Assumptions logdb_is_canonical_logs.
 Print Assumptions filter_on_canonical_logs.
 Print Assumptions write_block_appends_rows.
+Print Assumptions logdb_tracks_canonical_after_genesis_rows.
 Print Assumptions sync_reestablishes_canonical.
 Print Assumptions sync_verify_reestablishes_canonical.
 Print Assumptions verify_accepts_canonical_prefix.
